@@ -318,6 +318,18 @@ func c08(c *Ctx) {
 		c.ExpectAll("halt/acquire-under-primary-context", c.CallArgs("http.(*Server).handlePostHalt", p.PlainCalls("litefs.(*DB).AcquireHaltLock"), 1), pat("litefs.(*Store).PrimaryCtx(p0.store, net/http.(*Request).Context(@@))"), 1,
 			"POST /halt waits for the write lock under the primary-lease context", "F53: a node demoted while the request waited still granted the halt lock once the lock became free")
 	}
+	{
+		// the backup stream runs under the primary context: after its batching wait it starts another round
+		// only when that context is still alive
+		sb := "litefs.(*Store).streamBackup"
+		next := p.PlainCalls("litefs.(*ChangeSetSubscriber).DirtySet")
+		done := G(`^\(0 == select#0\)$`, true)
+		c.Guarded("primary-ctx/backup/next-round-after-select", sb, next, gs(G(`^\(0 == select#0\)$`, false)), 1,
+			"the batching wait of the backup stream is a select: the next round's dirty set is taken only on a branch other than the first case", "")
+		c.Before("primary-ctx/backup/select-watches-context", sb, next, p.PlainCalls("context.Context.Done"), 1, "... and the select watches the (primary) context", "")
+		c.NoPathFromEdge("primary-ctx/backup/no-round-after-context-ended", sb, done, Any(next, p.PlainCalls("litefs.(*Store).streamBackupDB", "litefs.BackupClient.PosMap", "litefs.(*Store).restoreDBFromBackup")), 2,
+			"once the context has ended no further round runs: no position map is fetched, no database is pushed or restored", "a node that lost the lease would push to the backup - or restore from it - once more, and the lease is only destroyed after this goroutine has finished")
+	}
 	c.Guarded("handoff/request/node-id-nonzero", "http.(*Server).handlePostHandoff", p.PlainCalls("litefs.(*Store).Handoff"), gs(G(`^\(0 == litefs\.ParseNodeID\(.*"nodeID"\)\)#0\)$`, false)), 1,
 		"the handoff endpoint never asks the store to hand off to node id 0", "F51: a stream opened without a node id is recorded as node 0; a handoff to it gives the lease to a client that cannot take it and demotes the primary")
 	c.ExpectAll("handoff/same-node", c.CallArgs(ho, lh, 2), "p2", 1, "the node handed to is the requested one", "")
